@@ -5,7 +5,7 @@ import "verif/mc/runner"
 func init() {
 	add(&runner.Spec{
 		Prop: "C07",
-		Rule: "layouts struct{Pre [8]byte; F T; Mid [3]byte; G uint8; Post [8]byte} with canary contents, placed as the middle element of a three-element allocation; T over 19 (quick) / 24 (thorough) element kinds of sizes 1..64 bytes (unsigned integers, byte arrays of 3/7/9/24/64, string, slice, small struct, pointer, bool, Text/JSON unmarshalers of 1/2/4/16 bytes, interface, map), arrays [n]E for n<=3 (4), slices []E pre-populated as the window [1:3:5] of a guarded 6-element backing array, ,string members; documents: 0..n+1 elements, null, wrong kinds, nulls inside, x 6 surrounding forms (F alone, with sibling G before/after, truncated, after an unknown member) x {zero, pre-populated} x {Unmarshal, Decoder}; run in a normal build with a forced garbage collection after every call and in a -d=checkptr build. Oracle: every canary byte, the sibling field, both neighbouring elements, the guard elements around the slice window and the caller's input are unchanged; slice/string headers are well formed. Streams of 2..3 documents into 8 destination kinds whose values may share memory with the stream buffer, under every single cut, one document per Read and pieces of 1..8 bytes: the values of earlier Decodes keep their contents (a later Decode writes only inside its own destination).",
+		Rule: "layouts struct{Pre [8]byte; F T; Mid [3]byte; G uint8; Post [8]byte} with canary contents, placed as the middle element of a three-element allocation; T over 19 (quick) / 24 (thorough) element kinds of sizes 1..64 bytes (unsigned integers, byte arrays of 3/7/9/24/64, string, slice, small struct, pointer, bool, Text/JSON unmarshalers of 1/2/4/16 bytes, interface, map), arrays [n]E for n<=3 (4), slices []E pre-populated as the window [1:3:5] of a guarded 6-element backing array, ,string members; documents: 0..n+1 elements, null, wrong kinds, nulls inside, x 6 surrounding forms (F alone, with sibling G before/after, truncated, after an unknown member) x {zero, pre-populated} x {Unmarshal, Decoder}; run in a normal build with a forced garbage collection after every call and in a -d=checkptr build. Oracle: every canary byte, the sibling field, both neighbouring elements, the guard elements around the slice window and the caller's input are unchanged; slice/string headers are well formed. Streams of 2..3 documents into 8 destination kinds whose values may share memory with the stream buffer, under every single cut, one document per Read and pieces of 1..8 bytes: the values of earlier Decodes keep their contents (a later Decode writes only inside its own destination). Over-read probes: every truncation of 9 documents (thorough: plus the depth-2 grammar) alone and followed by a lone backslash, an unfinished \\u escape, an opening quote or an unfinished literal, padded with leading white space so that the private copy (len+1 bytes) exactly fills a size class of the allocator, into 16 destination kinds through Unmarshal, UnmarshalNoEscape, Compact, Indent and Path evaluation in the checkptr build.",
 		StatesAre: "distinct failure kinds",
 		Assume:    append([]string{"stray reads are visible only through the checkptr build; a read of addressable memory that checkptr accepts is invisible", "reflect.StructOf lays fields out like a declared struct"}, commonAssume...),
 		Jobs: func(tier string) []runner.Job {
@@ -13,6 +13,7 @@ func init() {
 				{Harness: "c07.canary", Mode: "plain", Shards: 16, GC: "on"},
 				{Harness: "c07.canary", Mode: "checkptr", Shards: 16, GC: "on"},
 				{Harness: "c07.retain", Mode: "plain", Shards: 16, GC: "on"},
+				{Harness: "c07.overread", Mode: "checkptr", Shards: 16, GC: "on"},
 			}
 		},
 	})
